@@ -268,50 +268,12 @@ def handleStr (vt : String) (v : SV) (r : Replacer) (sp : Space) : String :=
   let dev := treeDev ++ (if gapLone sp && !treeDev.contains "str_lone_surrogate" then ["str_lone_surrogate"] else [])
   reply (outTok m ++ selfCheck fuel v r sp) (outTok s) (joinDev dev)
 
-/-! ### runtimes whose Object.prototype holds an accessor / a read-only property named "a" and "" -/
+/-! ### runtimes whose Object.prototype holds an accessor / a read-only property named "a" and ""
 
-def seven : FV := .fin false 7 0
+    (tokens e1 / e2).  JSON creates its properties with [[DefineOwnProperty]], so such a runtime
+    behaves like a pristine one: the token only selects the runtime on the harness side. -/
 
-/-- e1: a setter (no getter) for "a" and ""; e2: a read-only data property 7 -/
-def env? : String → Option ProtoEnv
-  | "e1" => some { blocked := [[97], []], inherited := .undef }
-  | "e2" => some { blocked := [[97], []], inherited := .num seven }
-  | _ => none
-
-def jmHasKey (b : List Str) (m : JMs) : Bool :=
-  match m with
-  | .nil => false
-  | .cons k _ t => b.contains k || jmHasKey b t
-
-def handleParseEnv (E : ProtoEnv) (text : Str) : String :=
-  let specV := Spec.jsonParse text
-  let dev := parseDevs text ++
-    (match specV with
-     | some v => if jvAny no1 (jmHasKey E.blocked) v then ["parse_put_inherited"] else []
-     | none => [])
-  reply (parseOut (C11.jsonParseEnv E text)) (parseOut specV) (joinDev dev)
-
-def handleReviveEnv (E : ProtoEnv) (text : Str) (f : Reviver) : String :=
-  let fuel := 4 * text.length + 16
-  let modelTok := match C11.jsonParseEnv E text with
-    | none => "throw:SyntaxError"
-    | some mv => "det:" ++ revTok (reviveTop f fuel (wrapperGet E (rvOf mv)))
-  let specTok := match Spec.jsonParse text with
-    | none => "throw:SyntaxError"
-    | some v => "det:" ++ revTok (Spec.revive f fuel [] (rvOf v))
-  let dev := parseDevs text ++ (match Spec.jsonParse text with | some _ => ["parse_put_inherited"] | none => [])
-  reply modelTok specTok (joinDev dev)
-
-/-- JSON.stringify: the wrapper's "" is created with `put`, so the walk starts from what `get("")` finds -/
-def handleStrEnv (E : ProtoEnv) (vt : String) (v : SV) (r : Replacer) (sp : Space) : String :=
-  let fuel := fuelOf vt
-  let v' : SV := if E.blocked.contains [] then (match E.inherited with | .num x => .num x | _ => .undef) else v
-  let m := C11.jsonStringify lib numStr fuel v' r sp
-  let s := Spec.jsonStringify numStr fuel v r sp
-  let base := (handleStr vt v r sp).splitOn " "
-  let dev0 := base.getD 2 "-"
-  let dev := if dev0 == "-" then "str_put_wrapper" else dev0 ++ ",str_put_wrapper"
-  reply (outTok m) (outTok s) dev
+def isEnv (t : String) : Bool := t == "e1" || t == "e2"
 
 def tText? (t : String) : Option Str :=
   if t.startsWith "t:" then units? (String.ofList (t.toList.drop 2)) else none
@@ -325,22 +287,22 @@ def handle (ws : List String) : String :=
     | some u => handleParse u
     | none => "bad-op"
   | ["parse", t, x] =>
-    match tText? t, reviver? x, env? x with
-    | some u, some f, _ => handleRevive u f
-    | some u, none, some E => handleParseEnv E u
-    | _, _, _ => "bad-op"
+    match tText? t, reviver? x with
+    | some u, some f => handleRevive u f
+    | some u, none => if isEnv x then handleParse u else "bad-op"
+    | _, _ => "bad-op"
   | ["parse", t, x, e] =>
-    match tText? t, reviver? x, env? e with
-    | some u, some f, some E => handleReviveEnv E u f
-    | _, _, _ => "bad-op"
+    match tText? t, reviver? x with
+    | some u, some f => if isEnv e then handleRevive u f else "bad-op"
+    | _, _ => "bad-op"
   | ["str", vt, rt, st] =>
     match sv? vt, replacer? rt, space? st with
     | some v, some r, some sp => handleStr vt v r sp
     | _, _, _ => "bad-op"
   | ["str", vt, rt, st, e] =>
-    match sv? vt, replacer? rt, space? st, env? e with
-    | some v, some r, some sp, some E => handleStrEnv E vt v r sp
-    | _, _, _, _ => "bad-op"
+    match sv? vt, replacer? rt, space? st with
+    | some v, some r, some sp => if isEnv e then handleStr vt v r sp else "bad-op"
+    | _, _, _ => "bad-op"
   | _ => "bad-op"
 
 end OttoVerif.C11.Driver
